@@ -584,8 +584,10 @@ func depthBounded(comp []*ssa.Function) (bool, string) {
 		in[f] = true
 	}
 	guards := map[*ssa.Function]string{}
+	guardAt := map[*ssa.Function][]*ssa.BasicBlock{} // the blocks that end in the depth test
 	for _, f := range comp {
 		found := ""
+		nfound := 0
 		allInstrs(f, func(x ssa.Instruction) {
 			iff, ok := x.(*ssa.If)
 			if !ok {
@@ -607,6 +609,12 @@ func depthBounded(comp []*ssa.Function) (bool, string) {
 				return
 			}
 			t := TermOf(bo.X, nil)
+			before := nfound
+			defer func() {
+				if nfound > before {
+					guardAt[f] = append(guardAt[f], iff.Block())
+				}
+			}()
 			// parameter depth: a recursive call in the cycle passes param+const
 			if p, ok := bo.X.(*ssa.Parameter); ok && isIntType(p.Type()) {
 				for _, g := range comp {
@@ -619,6 +627,7 @@ func depthBounded(comp []*ssa.Function) (bool, string) {
 							if b2, ok := arg.(*ssa.BinOp); ok && b2.Op == token.ADD {
 								if _, isP := b2.X.(*ssa.Parameter); isP {
 									found = fmt.Sprintf("%s compares its depth parameter %s with a constant and recursive calls pass depth+1", fname(f), p.Name())
+									nfound++
 								}
 							}
 						}
@@ -631,6 +640,7 @@ func depthBounded(comp []*ssa.Function) (bool, string) {
 					for _, st := range storesToField(g, t.Field) {
 						if b2, ok := st.Val.(*ssa.BinOp); ok && b2.Op == token.ADD {
 							found = fmt.Sprintf("%s compares the nesting counter %s with a constant; it is incremented in %s", fname(f), t, fname(g))
+							nfound++
 						}
 					}
 				}
@@ -643,29 +653,44 @@ func depthBounded(comp []*ssa.Function) (bool, string) {
 	if len(guards) == 0 {
 		return false, ""
 	}
-	// every cycle must pass a guarded function: without them the rest of the component is acyclic
+	// every cycle must pass a depth test: a call into the component is cut when a test of its function dominates
+	// it (the test sits on every way to that call, not merely somewhere in the function - a bound on the '(' branch
+	// says nothing about the '{' branch of the same function). Without the cut calls the component is acyclic.
 	rest := map[*ssa.Function]bool{}
 	for _, f := range comp {
-		if guards[f] == "" {
-			rest[f] = true
+		rest[f] = true
+	}
+	cut := func(f *ssa.Function, b *ssa.BasicBlock) bool {
+		for _, g := range guardAt[f] {
+			if g == b || g.Dominates(b) {
+				return true
+			}
 		}
+		return false
 	}
 	callees := func(f *ssa.Function) []*ssa.Function {
 		var out []*ssa.Function
 		seen := map[*ssa.Function]bool{}
-		allInstrs(f, func(y ssa.Instruction) {
-			if cal := staticCallee(y); cal != nil && rest[cal] && !seen[cal] {
-				seen[cal] = true
-				out = append(out, cal)
+		for _, b := range f.Blocks {
+			if cut(f, b) {
+				continue
 			}
-		})
-		for _, anon := range f.AnonFuncs {
-			allInstrs(anon, func(y ssa.Instruction) {
+			for _, y := range b.Instrs {
 				if cal := staticCallee(y); cal != nil && rest[cal] && !seen[cal] {
 					seen[cal] = true
 					out = append(out, cal)
 				}
-			})
+				if mc, ok := y.(*ssa.MakeClosure); ok {
+					if anon, ok := mc.Fn.(*ssa.Function); ok {
+						allInstrs(anon, func(z ssa.Instruction) {
+							if cal := staticCallee(z); cal != nil && rest[cal] && !seen[cal] {
+								seen[cal] = true
+								out = append(out, cal)
+							}
+						})
+					}
+				}
+			}
 		}
 		return out
 	}
